@@ -115,7 +115,7 @@ func (zzZeroReader) Read(p []byte) (int, error) {
 //
 //verif:property C08
 //verif:expect-reach end completed
-//verif:bound peer scripts of up to 6 messages over {Certificate(1 cert), ServerKeyExchange(X25519, well-formed), CertificateRequest, ServerHelloDone, CertificateStatus, Finished, connection closed}; signature verdict symbolic; randoms 32 symbolic bytes each; chain verification disabled (InsecureSkipVerify) - it is C10's subject; the real ecdheKeyAgreement runs
+//verif:bound peer scripts of up to 6 messages over {Certificate(1 cert), ServerKeyExchange(X25519, well-formed), CertificateRequest, ServerHelloDone, CertificateStatus, Finished, connection closed}; signature verdict symbolic; randoms distinct constants; chain verification disabled (InsecureSkipVerify) - it is C10's subject; the real ecdheKeyAgreement runs
 //verif:outside certificate chain/hostname verification (C10); the signature scheme; X25519 itself (golang.org/x/crypto, replaced in the symbolic run); NIST-curve and RSA key exchange; the Finished exchange
 //verif:stub (*github.com/tjfoc/gmsm/gmtls.Conn).readHandshake zzTLSReadHandshake
 //verif:stub (*github.com/tjfoc/gmsm/gmtls.Conn).sendAlert zzStubSendAlert08
@@ -134,7 +134,8 @@ func zzH_c08_client_flow_tls() { zzClientFlowTLS(false) }
 
 func zzClientFlowTLS(c15 bool) {
 	zzTL = zzTLSFlow{}
-	zzTL.cr, zzTL.sr = vBytes("clientRandom", 32, 32), vBytes("serverRandom", 32, 32)
+	zzTL.cr, zzTL.sr = zzRandomOf(0xC1), zzRandomOf(0x5E)
+	zzMS.calls = 0
 	cfg := &Config{InsecureSkipVerify: true, Rand: zzZeroReader{}}
 	c := &Conn{config: cfg, vers: VersionTLS12, isClient: true}
 	suite := &cipherSuite{id: TLS_ECDHE_ECDSA_WITH_AES_128_GCM_SHA256, keyLen: 16, ivLen: 4, ka: ecdheECDSAKA, flags: suiteECDHE | suiteECDSA | suiteTLS12}
@@ -151,6 +152,7 @@ func zzClientFlowTLS(c15 bool) {
 	}
 	if err == nil {
 		vReach("completed")
+		vAssert("master-secret-from-client-random-then-server-random", zzMS.calls == 1 && zzMS.argsOK)
 		vAssert("completion-implies-verified-key-exchange", zzTL.skxVerified && zzTL.ckxWritten)
 	}
 	vReach("end")
